@@ -16,6 +16,8 @@ UNCACHED = {'_lookup': ('str_uncached_lookup', '_cache', 3),
 
 def cu(rep):
     u = unit(rep.repo.root)
+    from .. import ceval
+    ceval.UNIT[0] = u
     if '_zope_interface_coptimizations.c' not in rep.repo.files_parsed:
         rep.repo.files_parsed.append('_zope_interface_coptimizations.c')
         rep.repo._src['_zope_interface_coptimizations.c'] = open(u.path).read()
